@@ -23,7 +23,9 @@ import builtins
 import errno as _errno
 import importlib
 import os as _os
+import re as _re
 import shutil as _shutil
+import tempfile as _tempfile
 
 from .sim import CTX
 
@@ -88,6 +90,12 @@ def rel(sim, path):
             if c.startswith(root + "/"):
                 r = c[len(root) + 1 :]
                 return f"{label}/{r}" if label else r
+    # e.g. the mkdtemp() limbo of a TransformPreview: keep the shape, drop the random part
+    tmp = _tempfile.gettempdir()
+    if p.startswith(tmp + "/"):
+        first, _, rest = p[len(tmp) + 1 :].partition("/")
+        first = _re.sub(r"[A-Za-z0-9_]{8}$", "*", first)
+        return "<tmp>/" + first + ("/" + rest if rest else "")
     return "<outside>/" + _os.path.basename(p)
 
 
